@@ -152,6 +152,117 @@ def judge(causes, outcome):
     return v
 
 
+def reconnect_scenario(coroutine_handlers, always_connect):
+    """server.disconnect(sid1) - suspended at its DISCONNECT write and in
+    the handler - while the same client sends DISCONNECT and then a new
+    CONNECT for that namespace (one after the other).  sid1's disconnect
+    handler runs exactly once; a session accepted afterwards is none of the
+    disconnect()'s business."""
+    def scenario(loop):
+        loop.setup = True
+        w = ServerWorld(is_async=True, loop=loop, namespaces=['/'],
+                        always_connect=always_connect)
+        sio = w.sio
+        log = w.log
+        if coroutine_handlers:
+            @sio.on('disconnect')
+            async def d(sid, reason):
+                log.append(('disconnect', '/', sid, reason))
+                await loop.point('h-in')
+        else:
+            @sio.on('disconnect')
+            def d(sid, reason):
+                log.append(('disconnect', '/', sid, reason))
+        t = w.new_transport()
+        w.recv_packet(t, 0, '/')
+        sock = w.transports[t]
+        sid1 = w.sid_of(t, '/')
+        w.drain_all()
+        real_send = sock.send
+
+        async def send(pkt):
+            await real_send(pkt)
+            await loop.point('send')
+        sock.send = send
+        loop.setup = False
+
+        async def sdisc():
+            await loop.point('start:sdisc')
+            await sio.disconnect(sid1)
+
+        async def client():
+            for f in ('1', '0'):
+                await loop.point('arrive')
+                await sock.receive(eio_packet.Packet(eio_packet.MESSAGE, f))
+        loop.create_task(sdisc())
+        loop.create_task(client())
+
+        def finish(hit):
+            n = w.namer.norm
+            frames = [f for f in w.drain(t) if f[0] == 'pkt']
+            accepted = [f[4]['sid'] for f in frames if f[1] == 0 and
+                        isinstance(f[4], dict) and 'sid' in f[4]]
+            now = w.sid_of(t, '/')
+            return {'log': [n(e) for e in log], 'sid1': n(sid1),
+                    'accepted': accepted,
+                    'now': n(now) if now else None,
+                    'now_connected': bool(now) and
+                    sio.manager.is_connected(now, '/'),
+                    'frames': frames, 'errors': loop.collect_errors(),
+                    'horizon': hit,
+                    'parked': [lb for lb, f in loop.parked if not f.done()]}
+        return finish
+    return scenario
+
+
+def judge_reconnect(out):
+    if out['horizon'] or out['parked']:
+        return [('C04/sched-stuck', f'reconnect scenario: {out}')]
+    v = []
+    if out['errors']:
+        v.append(('C04/sched-exception', f'reconnect scenario: '
+                  f'{out["errors"]}'))
+    n1 = [e for e in out['log'] if e[2] == out['sid1']]
+    other = [e for e in out['log'] if e[2] != out['sid1']]
+    if len(n1) != 1:
+        v.append(('C04/sched-handler-count', f'reconnect scenario: the '
+                  f'disconnect handler ran {len(n1)} times for the '
+                  f'disconnected sid: {out["log"]}'))
+    if other:
+        v.append(('C04/sched-wrong-victim', f'reconnect scenario: a session '
+                  f'nobody asked to end was disconnected: {other} '
+                  f'(frames {out["frames"]})'))
+    if out['accepted'] and out['now'] not in out['accepted']:
+        # under always_connect the CONNECT goes out before a refusal
+        if not any(f[1] == 1 for f in out['frames']):
+            v.append(('C04/sched-wrong-victim', f'reconnect scenario: the '
+                      f'newly accepted session {out["accepted"]} is gone: '
+                      f'{out}'))
+    return v
+
+
+def job_reconnect(args):
+    coro, ac = args
+    common.setup_imports()
+    viols = []
+
+    def on(choices, out):
+        for key, msg in judge_reconnect(out):
+            if len(viols) < 3:
+                viols.append((key, msg, {'replay': {
+                    'module': 'mc.checks.c04_sched',
+                    'func': 'replay_reconnect',
+                    'args': [coro, ac, [c[1] for c in choices]]}}))
+    st = e2.explore(reconnect_scenario(coro, ac), on)
+    return st, viols
+
+
+def replay_reconnect(coro, ac, prefix):
+    common.setup_imports()
+    choices, out = e2.run_one(reconnect_scenario(coro, ac), list(prefix))
+    return judge_reconnect(out)
+
+
 def job(args):
     causes, coro, max_execs = args
     common.setup_imports()
@@ -206,9 +317,17 @@ def run(tier, seed, result):
             result.violation(key, msg, wit)
         if sample and len(causes) == 2:
             result.sample({'causes': list(causes), 'schedule': sample[0]})
+    for st, viols in pmap(job_reconnect, [(c, a) for c in (True, False)
+                                          for a in (False, True)]):
+        total += st['executions']
+        result.add('schedules', st['executions'])
+        complete = complete and st['complete']
+        for key, msg, wit in viols:
+            result.violation(key, msg, wit)
     result.add('states', total)
     result.add('transitions', total)
-    return ('E2 schedules: %d executions over %d cause sets, %s%s' % (
+    return ('E2 schedules: %d executions over %d cause sets + 4 reconnect '
+            'scenarios, %s%s' % (
         total, len(jobs),
         'all interleavings' if complete else 'pairs exhaustive, triples '
         'capped (DFS order)', '; ' + '; '.join(notes) if notes else ''))
